@@ -29,7 +29,7 @@ tvars == <<vars, l, orig, seen>>
 Ev == Trace[l]
 
 Fresh ==
-    /\ off = <<0, 0>> /\ rot = 0 /\ lay = [rowR |-> TRUE, sstRev |-> FALSE, perm |-> <<>>, pad |-> "none", xml |-> "std"]
+    /\ off = <<0, 0>> /\ rot = 0 /\ lay = [rowR |-> TRUE, sstRev |-> FALSE, perm |-> <<>>, pad |-> "none", xml |-> "std", valsp |-> "none"]
     /\ cur = 1 /\ nv = 0
     /\ items = << <<>> >> /\ mseq = << <<>> >> /\ grid = << {} >>
 
@@ -37,7 +37,7 @@ TraceInit == Fresh /\ l = 1 /\ orig = {} /\ seen = {}
 
 TraceReset ==
     /\ l <= Len(Trace) /\ Ev.event = "Reset" /\ l' = l + 1
-    /\ off' = <<0, 0>> /\ rot' = 0 /\ lay' = [rowR |-> TRUE, sstRev |-> FALSE, perm |-> <<>>, pad |-> "none", xml |-> "std"]
+    /\ off' = <<0, 0>> /\ rot' = 0 /\ lay' = [rowR |-> TRUE, sstRev |-> FALSE, perm |-> <<>>, pad |-> "none", xml |-> "std", valsp |-> "none"]
     /\ cur' = 1 /\ nv' = 0
     /\ items' = << <<>> >> /\ mseq' = << <<>> >> /\ grid' = << {} >>
     /\ orig' = {} /\ seen' = {}
